@@ -9,7 +9,7 @@ from_list/list_to_json, JSON-file, YAML and TOML mixins where the payload is car
 every key_transform_with_dump for canonical snake_case names and under NONE for any identifier.
 """
 import json, copy
-from props.core_gen import Gen, systematic_types, type_stats, type_depth, LEAVES
+from props.core_gen import Gen, systematic_types, type_stats, type_depth, LEAVES, STR_ZOO
 from props.c05 import canon_show, coq_eval_groups
 from props.c03 import has_nested_data, has_auto_tag
 
@@ -38,7 +38,9 @@ META = {
              '(quick 80, thorough 2000) + classes with non-snake identifiers under NONE; x key transform {default, CAMEL, PASCAL, LISP, SNAKE, NONE} x root kind {plain, JSONWizard, '
              '+JSONFileWizard, YAMLWizard, TOMLWizard}. Names: 30% from the wider snake grammar (one-letter words, digits at word ends): the round trip is demanded whenever the MODEL '
              'says keys_ok (the theorem\'s hypothesis), and a class whose keys do not resolve in the model either is counted outside_domain. Values: tzinfo zoo, negative timedeltas, '
-             'huge ints. Histories: half of the models with nested dataclasses dump every nested instance on its own before the owner\'s first dump (default key spelling only: F10). '
+             'huge ints, a 45-string zoo (line endings incl. \\r\\n, control chars, astral/combining unicode, quotes, whitespace, look-alikes of numbers/dates/bools/null) swept '
+             'completely through field / list element / dict key / dict value x every root kind; Optional and Union elements laid out None-first, None-in-the-middle, complex-first; '
+             'every dict-like container with the leaf as key. Histories: half of the models with nested dataclasses dump every nested instance on its own before the owner\'s first dump (default key spelling only: F10). '
              'Non-trivial: at least one container/union/class layer or non-JSON leaf. Distinct: distinct (type label | value digest | transform).'),
     'trusted_base': ['models coq/model/CoreDump.v, CoreLoad.v; domain coq/model/CoreRT.v',
                      'harness/impl/core_rt.py (object <-> Gallina term / canonical text), harness/impl/c05.py oracle_table()'],
@@ -121,7 +123,7 @@ def all_canonical(ty):
 def make_cases(ctx):
     cases = []
     r = ctx.sub_rng('sys')
-    g = Gen(r, {'neg_timedelta': True, 'nonfinite': False, 'odd_offsets': True, 'ext_names': 0.3, 'same_named_enums': 0.3})   # sub-minute UTC offsets (repaired F43) stay in
+    g = Gen(r, {'neg_timedelta': True, 'nonfinite': False, 'odd_offsets': True, 'ext_names': 0.3, 'wild_names': 0.1, 'us_runs': 0.08, 'same_named_enums': 0.3})   # sub-minute UTC offsets (repaired F43) stay in
     items = systematic_types(g, 2 if ctx.tier == 'quick' else 3, leaves=C01_LEAVES)
     if ctx.tier != 'quick':
         d3 = [it for it in items if it[0].count('<') == 2]
@@ -145,9 +147,30 @@ def make_cases(ctx):
             root = g.root([t2], bases=base)
             cases.append({'root': root, 'value': g.value(root), 'cfg': {'xf': XFS[si % len(XFS)]},
                           'labels': {root['fields'][0]['name']: lab}, 'src': 'single'})
+    # value zoo sweep: EVERY string of the zoo as field value, list element, dict value and dict key, through every root kind
+    # (each text format has its own quoting / line-ending / look-alike rules)
+    S_ = {'t': 'str'}
+    shapes = [('field', S_), ('list', {'t': 'seq', 'k': 'list', 'e': S_}), ('dictval', {'t': 'dict', 'k': 'dict', 'kt': S_, 'vt': S_}),
+              ('optlist', {'t': 'seq', 'k': 'list', 'e': {'t': 'opt', 'e': S_}})]
+    zi = 0
+    sv = lambda x: {'v': 'str', 'x': x}
+    for base in ROOTS:
+        for k0 in range(0, len(STR_ZOO), 6):
+            chunk = STR_ZOO[k0:k0 + 6]
+            vals = {'field': sv(chunk[0]), 'list': {'v': 'seq', 'k': 'list', 'xs': [sv(x) for x in chunk]},
+                    'dictval': {'v': 'dict', 'k': 'dict', 'kvs': [[sv(x), sv(y)] for x, y in zip(chunk, reversed(chunk))]},
+                    'optlist': {'v': 'seq', 'k': 'list', 'xs': [{'v': 'none'}] + [sv(x) for x in chunk[:3]] + [{'v': 'none'}]}}
+            # null cannot be carried by TOML: positions with None go into a class of their own
+            for group in (['field', 'list', 'dictval'], ['optlist']):
+                tys = [copy.deepcopy(dict(shapes)[n]) for n in group]
+                root = g.root(tys, bases=base)
+                xs = [copy.deepcopy(vals[group[tys.index(f['ty'])]]) for f in root['fields']]
+                cases.append({'root': root, 'value': {'v': 'inst', 'id': root['id'], 'xs': xs}, 'cfg': {'xf': XFS[zi % len(XFS)]},
+                              'labels': {f['name']: 'strzoo' for f in root['fields']}, 'src': 'strzoo'})
+                zi += 1
     r2 = ctx.sub_rng('rand')
     for j in range(80 if ctx.tier == 'quick' else 2000):
-        g2 = Gen(r2, {'neg_timedelta': True, 'nonfinite': r2.random() < 0.2, 'odd_offsets': r2.random() < 0.3, 'ext_names': 0.3, 'same_named_enums': 0.3})
+        g2 = Gen(r2, {'neg_timedelta': True, 'nonfinite': r2.random() < 0.2, 'odd_offsets': r2.random() < 0.3, 'ext_names': 0.3, 'wild_names': 0.1, 'us_runs': 0.08, 'same_named_enums': 0.3})
         nf = r2.choice([1, 2, 3, 4])
         tys = []
         while len(tys) < nf:
@@ -168,8 +191,11 @@ def make_cases(ctx):
             c['cfg']['auto_tags'] = True
         # history axis: members dumped alone before the owner's first dump (default key spelling only:
         # a member dumped alone caches its own key spelling - open finding F10)
-        if has_nested_data(c['root']) and eff_xf(c) == 'CAMEL' and rh.random() < 0.5:
+        if has_nested_data(c['root']) and rh.random() < 0.5 and (eff_xf(c) == 'CAMEL' or not set(c['root'].get('bases', [])) & {'YAMLWizard', 'TOMLWizard'}):
             c['pre_dump'] = True
+            if eff_xf(c) != 'CAMEL':
+                c['cfg']['xf'] = 'CAMEL'
+        c['wild'] = None
         c['canonical_names'] = all_canonical(c['root'])
     return cases
 
